@@ -43,7 +43,7 @@ func resetCaches() bool {
 // ---- contexts ----
 
 func sqlFor(ctx string, c Case) string {
-	e := renderStyle2(c.Expr, c.Lower, c.Title)
+	e := renderCase(c)
 	switch ctx {
 	case "select":
 		return "SELECT " + e + " AS r FROM stream"
@@ -216,6 +216,7 @@ func show(x any) string {
 type inst struct {
 	s   *streamsql.Streamsql
 	sql string
+	c   Case // for the column naming of the rows it is fed
 }
 
 func open(sql string) (in *inst, err error) {
@@ -244,7 +245,7 @@ func (in *inst) emit(row gen.Row) (o outcome) {
 			o.panicked = r
 		}
 	}()
-	o.res, o.err = in.s.EmitSync(row.Go())
+	o.res, o.err = in.s.EmitSync(engineRow(in.c, row))
 	return
 }
 
@@ -365,7 +366,7 @@ func runExpr(c Case, res *pbt.Result) {
 			perm[i] = i
 		}
 	}
-	text := renderStyle2(c.Expr, c.Lower, c.Title)
+	text := renderCase(c)
 	applicable := []string{"select", "paren", "arg"}
 	if c.Expr.T == "b" {
 		applicable = allCtxs
@@ -385,6 +386,9 @@ func runExpr(c Case, res *pbt.Result) {
 	for _, ctx := range c.Ctxs {
 		sql := sqlFor(ctx, c)
 		a, err := open(sql)
+		if a != nil {
+			a.c = c
+		}
 		if err != nil {
 			if strings.HasPrefix(err.Error(), "PANIC") {
 				res.Add(pbt.D(ctx+":panic", "%v for %s", err, sql))
@@ -394,6 +398,9 @@ func runExpr(c Case, res *pbt.Result) {
 			continue
 		}
 		b, err := open(sql)
+		if b != nil {
+			b.c = c
+		}
 		if err != nil {
 			a.s.Stop()
 			res.Add(pbt.D(ctx+":execute-unstable", "second Execute of the same text failed: %v for %s", err, sql))
@@ -536,6 +543,12 @@ func genCase(t *rapid.T) Case {
 	c.Wrap = ws[s.pick("wrap", len(ws))]
 	c.Lower = s.pick("lower", 2) == 0
 	c.Title = s.pick("title", 8) == 0
+	// keyword-bearing column names: only inside CASE WHEN .. (evaluated by the hand-written engine whatever the names
+	// are; in the other contexts the engine's routing heuristics look at the item text, so a renamed column would move
+	// the case between the evaluators and with them between the open findings)
+	if c.Names = ty == "b" && s.pick("names", 5) == 0; c.Names {
+		c.Ctxs = []string{"when"}
+	}
 	s.collectLiterals(c.Expr)
 	c.Rows = s.rows()
 	c.Perm = s.perm(len(c.Rows))
@@ -586,7 +599,7 @@ var spec = pbt.Spec[Case]{
 	ID: prop,
 	Rule: "generated: well-typed expression trees of depth 1-4 over columns a,b (int/float64/NULL/absent per row, b non-zero), s,u (text/NULL/absent), f (bool/NULL/absent), n (NULL), m (absent); " +
 		"numeric and text literals (plain and operator/keyword-bearing), + - * / (divisor non-zero literal or b), unary minus, comparisons (= == != < <= > >=), AND/OR/NOT in upper or lower case, parentheses, " +
-		"searched and simple CASE with/without ELSE, IS [NOT] NULL on columns, column-vs-literal comparisons and flat AND/OR chains of them (WHERE fast-path shapes), calls from a typed table of 55 signatures of 51 deterministic built-ins " +
+		"searched and simple CASE with/without ELSE, IS [NOT] NULL on columns, column-vs-literal comparisons and flat AND/OR chains of them (WHERE fast-path shapes), columns called a, b, s, u, f, n, m or, for one boolean case in five that then runs in the CASE WHEN context only, by names that contain keywords (order_id, is_ok, island, notes, android, ..); calls from a typed table of 55 signatures of 51 deterministic built-ins " +
 		"(names in lower case or with an initial capital); column values aimed at the literals of the expression. Each expression is rendered as SELECT item, parenthesised SELECT item, WHERE, " +
 		"CASE WHEN .. THEN 1 ELSE 0 END, and argument of abs/floor/if_null/coalesce/upper/length/concat; histories of 2-6 rows through instance A and, interleaved in a drawn order, through instance B with the same SQL text, " +
 		"starting from empty process-wide expression caches. Oracle: reference interpreter (float64 arithmetic, int/float mixing, Kleene logic collapsed to not-true at WHERE/WHEN, NULL-propagating arithmetic, " +
